@@ -40,6 +40,7 @@ class GeminiClientProtocol(asyncio.Protocol):
         url: str,
         response_future: asyncio.Future,
         send_on_connect: bool = True,
+        decode_text: bool = True,
     ):
         """Initialize the client protocol.
 
@@ -49,10 +50,13 @@ class GeminiClientProtocol(asyncio.Protocol):
             send_on_connect: Send the request as soon as the connection is made.
                 Pass False to send it later with send_request(), e.g. after the
                 server certificate has been verified.
+            decode_text: Decode text/* bodies to str using the declared charset.
+                Pass False to always get the raw body bytes (e.g. for relaying).
         """
         self.url = url
         self.response_future = response_future
         self.send_on_connect = send_on_connect
+        self.decode_text = decode_text
         self.transport: asyncio.Transport | None = None
         self.buffer = b""
         self.header_received = False
@@ -182,7 +186,7 @@ class GeminiClientProtocol(asyncio.Protocol):
             mime_type = (self.meta or "").split(";")[0].strip().lower()
             is_text = mime_type.startswith("text/") or mime_type == ""
 
-            if is_text:
+            if is_text and self.decode_text:
                 # Get charset from meta if specified, default to utf-8
                 charset = "utf-8"
                 # Parse charset from meta (e.g., "text/gemini; charset=iso-8859-1")
